@@ -11,8 +11,9 @@ checks = {
    "Bounded symbolic execution of the real SSA of Encoder.Encode*/EncodePacked*, Decoder.DecodeTag/Decode*/DecodePacked* and the size helpers: "
    "field number over all of [1,2^29-1], value over the whole Go type (floats as bit patterns), decoder mode symbolic, output buffer sized only from the "
    "size helpers with symbolic initial contents (slack or overrun cannot hide). Every implicit Go panic and every round-trip assertion is an SMT obligation "
-   "discharged for all inputs on the path. Strings/bytes: symbolic length <= 2^20 (quick) / 2^31-17 (thorough), symbolic contents, no unrolling. "
-   "Packed lists: <=40/140 elements (fixed-width kinds, bool), <=1-2 / 2-3 elements (varint kinds).", "§5 C01"),
+   "discharged for all inputs on the path. Strings/bytes: symbolic length <= 2^20 (quick) / 2^28+64 (thorough), symbolic contents, no unrolling. "
+   "Packed lists: <=40/140 elements (fixed-width kinds, bool), <=1-2 / 2-3 elements (varint kinds, every size class), plus lists of 12-13 ten-byte / 25-26 five-byte "
+   "varints whose payload straddles the 1->2 byte length prefix.", "§5 C01"),
  "C02": ("model_checking",
    "csproto's encoder output is compared byte for byte with google.golang.org/protobuf/encoding/protowire executed symbolically from its own SSA "
    "(plus the spec zig-zag formula), for every kind, every field number and every value; reference-written fields and packed runs (including 10-byte "
@@ -23,8 +24,8 @@ checks = {
    "cursor in [0,len], symbolic mode; one call of each of the 30 API functions. Obligations: no implicit panic, cursor invariant re-established, input not "
    "written, advance equals the protowire reference's item length on success, over-long declared lengths rejected, make() capacity <= 8*len+64.", "§5 C03"),
  "C19": ("model_checking",
-   "EncodeNested/DecodeNested with harness message types for the MarshalerTo, Marshaler and v1 (XXX_) tiers, symbolic payload (<=12/200 bytes) and "
-   "symbolic failure: bytes == key||len||csproto.Marshal(m), cursor exact (sentinel after the field), nested error returned identically, decode "
+   "EncodeNested/DecodeNested with harness message types for the MarshalerTo, Marshaler and v1 (XXX_) tiers, symbolic payload (<=12/200 bytes plus the lengths 126-130 and 16382-16386 around the length-prefix boundaries) and "
+   "symbolic failure: bytes == key||len||csproto.Marshal(m), cursor exact (sentinel after the field), nested error returned (errors.Is), decode "
    "consumes exactly the declared length, over-long length rejected before the nested decoder runs.", "§5 C19"),
  "C13": ("model_checking",
    "lazyproto Decode / NewDecoder+Decode (safe and fast mode, both entry points symbolic) on messages written by the protowire reference with symbolic "
@@ -45,28 +46,36 @@ checks = {
    "The generated Size/Marshal/MarshalTo are produced at check time by the plug-in built from /repo (no protoc: hand-built CodeGeneratorRequest) for a schema corpus "
    "(proto3 and proto2: 16 scalar kinds x singular/optional/repeated packed/unpacked at field numbers of every key size, nested/repeated/recursive messages, oneof, "
    "6 map kinds, a multi-field message) and executed symbolically with everything they call in csproto. Obligation per message value: buffer of exactly Size() bytes "
-   "with symbolic initial contents, MarshalTo succeeds without any implicit panic, len(Marshal())==Size(), identical bytes. Lists <=2-3 (varint) / <=3-6 and 15-17/31-33/127-129 (fixed, bool) elements.", "§4, §5 C04"),
+   "with symbolic initial contents, MarshalTo succeeds without any implicit panic, len(Marshal())==Size(), identical bytes. Lists <=2-3 (varint) / <=3-6 and 15-17/31-33/127-129 (fixed, bool) elements; long values (<=300 bytes) for the length-prefix boundary. "
+   "proto2 extensions of 14 kinds and a message with three extensions (int32, string, message) run against an explicit contract model of protobuf-go's extension store "
+   "(validated on every native replay). Generator option variants filepermessage / enableunsafedecode run the all-fields and composite harnesses.", "§4, §5 C04"),
  "C05": ("model_checking",
    "Marshal output of every corpus message value equals the canonical encoding written by the protowire reference from the spec rules (presence per syntax, packed/unpacked, "
    "oneof, map entries, nested); on every replayed witness the oracle itself is validated against proto.Marshal(Deterministic) of the real protobuf-go runtime and a "
-   "counterexample is only reported if the real runtime decodes the bytes to a different message/presence. Google v2 structs, apiversion=v2.", "§4, §5 C05"),
+   "counterexample is only reported if the real runtime decodes the bytes to a different message/presence. Google v2 structs, apiversion=v2. "
+   "Extendable messages: nothing unset is emitted, every set extension is emitted once (either order relative to regular fields).", "§4, §5 C05"),
  "C06": ("model_checking",
    "Generated Unmarshal on valid encodings enumerated by shape with symbolic values: singular field twice with an unknown field interleaved, repeated fields in every "
    "legal wire form for both declared packings (unpacked, one packed run, split runs, empty run), nested/recursive messages, oneof member sequences, map entries in "
-   "6 shapes, pre-populated destination. Expected state is spec-derived; on replay proto.Unmarshal/proto.Equal of the real runtime decides.", "§5 C06"),
+   "6 shapes, extension fields (once, twice, absent; any order), pre-populated destination. Expected state is spec-derived; on replay proto.Unmarshal/proto.Equal of the real runtime decides.", "§5 C06"),
  "C07": ("model_checking",
-   "Unknown fields (symbolic number, any of the 4 wire types, symbolic payload) before and after a known field: after Unmarshal, Size counts them and Marshal re-emits "
+   "Unknown fields (first one: any undefined number in [1,2^29-1]; any of the 4 wire types, symbolic payload) before and after a singular known field, and around a packed run "
+   "plus an unpacked occurrence of every numeric repeated field (both declared packings) and around extension fields: after Unmarshal, Size counts them and Marshal re-emits "
    "them byte for byte (known fields first, unknown in arrival order), per message kind; validated against the real runtime on replay.", "§5 C07"),
  "C08": ("model_checking",
-   "Generated Unmarshal of 15 message types on fully unconstrained input bytes of length <=4-6 (quick) / <=6-10 (thorough): no implicit panic, make() capacity <= 8*len+64. "
-   "The differential clause (both accept => equal) is covered by C06's valid shapes only; arbitrary-input differential is outside the claim.", "§5 C08"),
+   "Generated Unmarshal of 34 message types (proto3, proto2 incl. required fields, extendable) on fully unconstrained input bytes of length <=4-6 (quick) / <=6-8 (thorough), and "
+   "on 25 of them a field key followed by an arbitrary single varint of 1-10 bytes (overflowing / unterminated included) as declared length and a short tail: no implicit panic, "
+   "make() capacity <= 8*len+64. Differential clause: the witness of every accepting path is decoded by the real reference runtime too and the messages must be equal "
+   "(the open finding 'singular message field merged' is recognised by cause and reported as KNOWN-FINDING).", "§5 C08"),
  "C09": ("model_checking",
    "Two-step history that generalises: contents A, Size() (cache now holds Size(A), as any history or the runtime's proto.Size can leave it), assignment of independent "
-   "symbolic contents B through the fields (also inside an already-sized nested message), then Marshal == canonical(B) and MarshalTo into Size() bytes succeeds. "
-   "Per message kind and for composites. Concurrent clause: the only write in Size/Marshal is the atomic store of the cache (ownership obligation).", "§5 C09"),
+   "symbolic contents B through the fields (also inside an already-sized nested message), then Marshal == canonical(B) and MarshalTo into a reused scratch buffer (symbolic previous contents) writes the same bytes; also set/overwrite/clear of extensions. "
+   "Per message kind and for composites. Concurrent clause (H_C09_Own_*): on a shared message Size/Marshal/MarshalTo perform no plain write and no location is stored atomically and loaded plainly "
+   "(thread-modular obligation); natively 8 goroutines marshal a never-marshaled message under the race detector.", "§5 C09"),
  "C10": ("model_checking",
    "Heap-identity obligation after generated Unmarshal without enableunsafedecode: no non-empty string/[]byte reachable from the message (fields, repeated, oneof, map values, "
-   "nested, unknown-field storage) shares the input's backing object; the native replay overwrites the buffer and compares. Lazy-decoder safe mode is covered by C14's stability obligations.", "§5 C10"),
+   "nested, unknown-field storage, extension values) shares the input's backing object, also when the process has used a lazy decode and a fast-mode decoder before and after map "
+   "entries of every shape; hand-written DecodeString/DecodeBytes on arbitrary buffers <=160/300 bytes; the native replay overwrites the buffer and compares serialisations. Lazy-decoder safe mode is covered by C14's stability obligations.", "§5 C10"),
  "C17": ("model_checking",
    "proto2 messages with 1-3 required fields, flat and nested (child + repeated kids), all presence vectors symbolic: Marshal/MarshalTo return an error iff a required "
    "field of the message or of a nested message reached is unset (all-unset included); Unmarshal of the canonical bytes of every presence vector returns an error iff "
@@ -79,7 +88,7 @@ checks = {
  "C12": ("other",
    "Symbolic execution of extensions.go over message x descriptor candidates with the runtimes' extension APIs as logged stubs: matching pairs reach exactly the owning "
    "runtime, mismatching pairs yield false/error/documented panic with no runtime call; every path is replayed natively where the coherence laws are asserted on real "
-   "v2 and gogo messages with real extensions.", "§5 C12"),
+   "v2 and gogo messages with real extensions, and csproto's answers are compared with the owning runtime's (declared defaults, foreign extendees).", "§5 C12"),
  "C18": ("other",
    "Symbolic execution of json.go with the five options symbolic: the codec invoked receives exactly the options given (receiver structs of the stubbed protojson/jsonpb "
    "calls are read back), nil handling, json.Marshaler/Unmarshaler precedence, error propagation; every path replayed natively where the real codecs must produce valid "
